@@ -81,7 +81,8 @@ Value& OpADDExpression::value(Context& ctx) const
       case Type::IMAGINARY:
         return LVAL2(Value(a2.type()), a1, a2);
       case Type::LITERAL:
-        return a2; /* null + literal */
+        /* null + literal: the literal, never the storage of a variable or constant */
+        return (a2.lvalue() ? ctx.allocate(a2.clone()) : a2);
       default:
         break;
       }
@@ -180,11 +181,11 @@ Value& OpADDExpression::value(Context& ctx) const
       switch (a2.type().major())
       {
       case Type::NO_TYPE:
-        return a1;
+        return (a1.lvalue() ? ctx.allocate(a1.clone()) : a1);
       case Type::LITERAL:
       {
         if (a1.isNull())
-          return a2;
+          return (a2.lvalue() ? ctx.allocate(a2.clone()) : a2);
         if (a1.lvalue())
         {
           Value& val = ctx.allocate(a1.clone());
